@@ -25,6 +25,11 @@ class Machine:
         self.tgt = tuple(_norm(v) for v in sfs["tgt_ws"])
 
     def weight(self, ident, criterion):
+        if isinstance(criterion, dict):
+            # explicit weights: ids of the specification, and the keys "DUP", "SWAP", "POP"
+            if ident in criterion:
+                return criterion[ident]
+            return criterion["DUP" if ident.startswith("DUP") else "SWAP" if ident.startswith("SWAP") else "POP"]
         if criterion == "length":
             return 1
         if ident in self.instrs:
